@@ -17,7 +17,8 @@ AWKWARD_SUBJECTS = [
 ]
 NAME_ALPHABET = "abcxyzABZ019-_ .,'\"#/\\üß日Ω+=()"
 GROUP_ALPHABET = "abcxyzABZ019-_ .'\"#üßΩ+()"
-AWKWARD_GROUPS = ["a-b", "a_b", "a b", "UPPER", "x-", "-x", "tp", "sq-dsc", "ungrouped", "subject_name", "g\"q", "ß", "1", "a--b", "Mixed Case-1"]
+AWKWARD_GROUPS = ["a-b", "a_b", "a b", "UPPER", "x-", "-x", "tp", "sq-dsc", "ungrouped", "subject_name", "g\"q", "ß", "1", "a--b", "Mixed Case-1",
+                  "", " ", "-", "\"quoted\"", "İstanbul", "x-tp", "across_groups"]
 
 
 def rand_name(rng: random.Random, alphabet=NAME_ALPHABET, lo=1, hi=8) -> str:
